@@ -15,10 +15,10 @@ Proof.
   intros H. destruct g as [tr n plan val up bad]. cbn in H. subst plan.
   unfold cb_at, callback_at, bind, get, getg, putg, ret. cbn. reflexivity.
 Qed.
-Lemma absorb_plain mc rn g : g_up g = [] -> absorb_up mc rn g = (Some tt, rn, g).
+Lemma absorb_plain contained mc rn g : g_up g = [] -> absorb_up contained mc rn g = (Some tt, rn, g).
 Proof.
   intros H. destruct g as [tr n plan val up bad]. cbn in H. subst up.
-  unfold absorb_up, bind, take_up. cbn. reflexivity.
+  unfold absorb_up, bind, take_up. destruct contained; cbn; reflexivity.
 Qed.
 
 Lemma lift_plain {A} s (d:A) (m:M A) rn g kn a kn' items :
@@ -159,7 +159,7 @@ Proof.
   set (children := map (fun st => match s_sub st with Some c => Some (build cf parents true c) | None => None end) (m_states mc)).
   (* one region *)
   assert (Step : forall s rn g, wk mc rn -> g_plan g = [] -> g_up g = [] ->
-            exec_exit mc children fuel s ev rn g =
+            exec_exit contained mc children fuel s ev rn g =
               (Some tt, snd (exit_state (exit_subs mc) ev s ([], rn)), bump g (fst (exit_state (exit_subs mc) ev s ([], rn))))
             /\ wk mc (snd (exit_state (exit_subs mc) ev s ([], rn)))).
   { clear rn g Hw Hp Hu. intros s rn g Hw Hp Hu. unfold exec_exit, exit_state, child, children, exit_subs.
@@ -200,7 +200,7 @@ Proof.
       rewrite cb_at_plain by auto. cbn [fst snd]. split; [reflexivity | exact Hw]. }
   (* the regions in order *)
   assert (Regs : forall n r rn g, wk mc rn -> g_plan g = [] -> g_up g = [] ->
-            exit_regions mc children fuel ev n r rn g =
+            exit_regions contained mc children fuel ev n r rn g =
               (Some tt, snd (fold_left (fun acc r => exit_state (exit_subs mc) ev (nth r (act (snd acc)) 0) acc) (seqn r n) ([], rn)),
                bump g (fst (fold_left (fun acc r => exit_state (exit_subs mc) ev (nth r (act (snd acc)) 0) acc) (seqn r n) ([], rn))))).
   { clear rn g Hw Hp Hu. induction n as [|n IHn]; intros r rn g Hw Hp Hu; cbn [exit_regions seqn fold_left].
